@@ -653,3 +653,10 @@ type T25 struct { //ẞ
 
 /**/
 var V = 1 /*İ*/ + 2 //x
+
+// Answer is 42. FIXME: derive it.
+func Fixme() int { return 42 } // XXX trailing marker, FIXME too
+
+/* a block comment. FIXME inside, and
+   XXX on its second line */
+var W = 2 // nothing here
